@@ -297,6 +297,7 @@ func headers(c *vk.Ctx, r *runner) {
 		comments          []string
 		dst, doc, drop    string
 		keep              string
+		pt                int // period type: 0 cpu/nanoseconds, 1 absent (nil), 2 empty (what the decoder leaves)
 	}
 	mk := func(hs []hdr) []*input {
 		var ins []*input
@@ -305,6 +306,12 @@ func headers(c *vk.Ctx, r *runner) {
 			a.TimeNanos, a.Period, a.DurationNanos = h.time, h.period, h.dur
 			a.Comments = append([]string(nil), h.comments...)
 			a.DefaultSampleType, a.DocURL, a.DropFrames, a.KeepFrames = h.dst, h.doc, h.drop, h.keep
+			switch h.pt {
+			case 1:
+				a.PeriodType = nil
+			case 2:
+				a.PeriodType = &ap.VT{}
+			}
 			in := &input{a: a, ts: []*tstack{base}}
 			if i == 2 {
 				in.o = shifted
@@ -360,6 +367,8 @@ func headers(c *vk.Ctx, r *runner) {
 	run("header-time-period", m1, 3)
 	run("header-duration-comments", m2, 3)
 	run("header-other", m3, 2)
+	// profiles without a period type, built in memory (nil) or decoded (empty value type): the same thing
+	run("header-no-period-type", []hdr{{pt: 1, period: 1}, {pt: 2, period: 1}}, 3)
 	if c.Thorough() {
 		for _, t := range []int64{0, 5, 9} {
 			for _, p := range []int64{0, 3, 7} {
